@@ -138,6 +138,12 @@ probe_seed = st.one_of(st.integers(0, 15), st.integers(0, U64))
 def history_case(draw):
     first = draw(st.sampled_from([["create", 0], ["pcreate", 0], ["create", 1], ["pcreate", 2]]))
     ops = [first] + draw(st.lists(hist_op, min_size=1, max_size=14))
+    if draw(st.integers(0, 2)):
+        # make the class the property is about frequent: a context that was randomized AND went through a clone
+        i = draw(st.integers(1, len(ops)))
+        ops.insert(i, ["rand", draw(_idx), draw(seed32)])
+        j = draw(st.integers(1, len(ops)))
+        ops.insert(j, [draw(st.sampled_from(["clone", "pclone"])), draw(_idx)])
     return {"seed": draw(probe_seed), "ops": ops}
 
 
